@@ -7,11 +7,24 @@
    above a leaf) is the depth-first enumeration of a trie with pairwise distinct child elements at every node, so the
    paths sharing leading elements - the paths of one list entry, whose element text is one text when the keys are written
    in canonical order - are contiguous, and trie_of rebuilds exactly that trie (C18_trie_of_dfs).  Both hypotheses are
-   necessary: C18_leading_slash_needed, C18_prefix_free_needed.  What wf_set still decides by evaluation is the rest of
-   wf_trie (key names per list, explicit key leaves, parse of keyed elements, different key sets for equal list names). *)
+   necessary: C18_leading_slash_needed, C18_prefix_free_needed.
+   wf_set itself now FOLLOWS from conditions on the input (Proofs/TreeWfInputs.v, TreeWfInputsEx.v):
+   C18_wf_set_from_inputs - inputs_okb rfc pvs = true -> wf_set rfc pvs = true, where inputs_okb is the conjunction of
+     normal_textb (grammar) every path text is "/" e1 "/" e2 ..., elements the tokenizer returns whole
+     pfreeb       (schema)  no path's elements are a prefix of another's
+     grammarb     (grammar) an element containing '=' parses into a name and a non-empty key map with distinct key names
+     schema_keysb (schema, YANG) every use of a list carries the same key names in the same order
+     key_namesb   (schema)  a container / list inside a list entry is not named like one of the entry's keys
+     key_leavesb  (values)  no leaf value makes handleLeafValue panic; an explicit key leaf says what the path says
+     siblingsb    (schema)  two different elements under one parent share a member name only as two entries of one list
+                            with different key maps
+   all evaluated on the live paths (per path, or per pair of paths), never on the trie; C18_build_render_inputs and
+   C18_flatten_build_inputs restate the two main theorems over them.  Each schema / grammar / value condition is needed:
+   C18_schema_keys_needed (BuildTree succeeds, the document reads back a different key), C18_siblings_needed and
+   C18_key_names_needed (BuildTree fails), C18_key_leaves_needed (entry split), C18_grammar_needed (panic). *)
 From Coq Require Import List NArith Bool Permutation Sorted.
 From OC Require Import Base.Bytes Model.Tree Model.TreeSpec Proofs.TreeProofs Proofs.TreeBuildProofs Proofs.TreeFlattenProofs Proofs.TreeExamples
-     Proofs.TreeContiguous Proofs.TreeContiguousSets.
+     Proofs.TreeContiguous Proofs.TreeContiguousSets Proofs.TreeWfInputs Proofs.TreeWfInputsEx.
 Import ListNotations.
 
 (* Pruning keeps exactly (as a multiset) the path/values that have no tombstone strictly above them at a path
@@ -172,3 +185,63 @@ Theorem C18_prefix_free_needed :
   wf_set true cx_leaf = false.
 Proof. exact prefix_free_needed. Qed.
 Print Assumptions C18_prefix_free_needed.
+
+(* ---- wf_set from conditions on the input (see the header for inputs_okb) *)
+Theorem C18_wf_set_from_inputs : forall rfc pvs, inputs_okb rfc pvs = true -> wf_set rfc pvs = true.
+Proof. exact wf_set_from_inputs. Qed.
+Print Assumptions C18_wf_set_from_inputs.
+
+Theorem C18_build_render_inputs : forall rfc pvs, inputs_okb rfc pvs = true ->
+  build_tree rfc pvs = Ok (render rfc (trie_of (live_paths pvs))).
+Proof. exact build_render_from_inputs. Qed.
+Print Assumptions C18_build_render_inputs.
+
+Theorem C18_flatten_build_inputs : forall rfc pvs, inputs_okb rfc pvs = true ->
+  exists t, build_tree rfc pvs = Ok t /\
+            Permutation (flatten (schema_of (live_paths pvs)) [] t)
+                        (explicit_leaves rfc (live_paths pvs) ++ key_leaves rfc (trie_of (live_paths pvs)) []).
+Proof. exact flatten_build_from_inputs. Qed.
+Print Assumptions C18_flatten_build_inputs.
+
+(* the trie is well formed as soon as every one of its paths walks through (walk = wf_trie along one path) and the
+   paths part compatibly (sib) *)
+Theorem C18_wf_from_paths : forall rfc ks t, good t -> forall cs, t = TNode cs -> forall sp K0,
+  (forall p, In p (dfs t) -> walk rfc ks sp K0 (fst p) (snd p) = true) ->
+  ForallOrdPairs sibP (dfs t) -> wf_trie rfc ks sp K0 t = true.
+Proof. exact wf_from_paths. Qed.
+Print Assumptions C18_wf_from_paths.
+
+Theorem C18_inputs_inhabited : inputs_okb true wf_example = true /\ inputs_okb false wf_example = true.
+Proof. exact inputs_example. Qed.
+Print Assumptions C18_inputs_inhabited.
+
+(* parts = (normal texts, prefix-free, grammar, schema keys, key names, key leaves, siblings) *)
+Theorem C18_schema_keys_needed :
+  parts true cx_keys = (true, true, true, false, true, true, true) /\ wf_set true cx_keys = false /\
+  exists t x, build_tree true cx_keys = Ok t /\
+              In x (flatten (schema_of (live_paths cx_keys)) [] t) /\
+              ~ In x (explicit_leaves true (live_paths cx_keys) ++ key_leaves true (trie_of (live_paths cx_keys)) []) /\
+              x = ([(B "l", [(B "a", [])]); (B "w", [])], GStr (B "2")).
+Proof. exact schema_keys_needed. Qed.
+Print Assumptions C18_schema_keys_needed.
+
+Theorem C18_siblings_needed :
+  parts true cx_kind = (true, true, true, true, true, true, false) /\ build_tree true cx_kind = Err /\ wf_set true cx_kind = false.
+Proof. exact siblings_needed. Qed.
+Print Assumptions C18_siblings_needed.
+
+Theorem C18_key_names_needed :
+  parts true cx_kname = (true, true, true, true, false, true, true) /\ build_tree true cx_kname = Err /\ wf_set true cx_kname = false.
+Proof. exact key_names_needed. Qed.
+Print Assumptions C18_key_names_needed.
+
+Theorem C18_key_leaves_needed :
+  parts true cx_kleaf = (true, true, true, true, true, false, true) /\
+  (exists l, build_tree true cx_kleaf = Ok (NMap [(B "l", NArr l)]) /\ List.length l = 2%nat) /\ wf_set true cx_kleaf = false.
+Proof. exact key_leaves_needed. Qed.
+Print Assumptions C18_key_leaves_needed.
+
+Theorem C18_grammar_needed :
+  parts true cx_gram = (true, true, false, true, true, true, true) /\ build_tree true cx_gram = Panic /\ wf_set true cx_gram = false.
+Proof. exact grammar_needed. Qed.
+Print Assumptions C18_grammar_needed.
